@@ -13,6 +13,8 @@ import (
 
 	"github.com/256dpi/lungo"
 	"go.mongodb.org/mongo-driver/bson"
+	"go.mongodb.org/mongo-driver/bson/primitive"
+	"go.mongodb.org/mongo-driver/mongo/options"
 
 	"verifharness/fw"
 	"verifharness/sched"
@@ -34,7 +36,7 @@ func init() {
 		Batches:     func(tier string) int { return 16 },
 		Parallel:    func(tier string) int { return 8 },
 		Require: func(tier string) map[string]int64 {
-			return map[string]int64{"scenarios": 600, "directed_runs": 200, "directed_achieved": 40, "quiescent_checks": 600, "closed_checks": 60, "shared_session_scenarios": 60, "store_faults": 40, "panics_injected": 20,
+			return map[string]int64{"scenarios": 600, "directed_runs": 200, "directed_achieved": 40, "quiescent_checks": 600, "closed_checks": 60, "shared_session_scenarios": 60, "store_faults": 40, "panics_injected": 20, "panicking_write_callbacks": 10,
 				"cancelled_contexts": 60, "hook_events": 20000, "interleavings_recorded": 300}
 		},
 		WorkerTimeoutSec: func(tier string) int {
@@ -70,7 +72,7 @@ func (s *faultStore) Store(c *lungo.Catalog) error {
 }
 
 var c16Steps = []string{
-	"write", "write", "write_cancelled", "write_deadline", "read",
+	"write", "write", "write_cancelled", "write_deadline", "write_panicking", "read",
 	"begin", "commit", "abort",
 	"sess.start", "sess.write", "sess.commit", "sess.abort", "sess.end", "sess.drop", "sess.index",
 	"with_txn_ok", "with_txn_err", "with_txn_panic",
@@ -99,7 +101,7 @@ func c16Gen(r *fw.Rand) c16Scenario {
 			case 0: // session heavy
 				st = fw.Pick(r, []string{"sess.start", "sess.write", "sess.commit", "sess.abort", "sess.end", "sess.drop", "sess.index", "sess.start", "sess.commit", "write"})
 			case 1: // raw engine
-				st = fw.Pick(r, []string{"begin", "commit", "abort", "begin", "write", "write_cancelled", "write_deadline", "store.fail", "store.panic"})
+				st = fw.Pick(r, []string{"begin", "commit", "abort", "begin", "write", "write_cancelled", "write_deadline", "write_panicking", "store.fail", "store.panic"})
 			case 2: // streams and close
 				st = fw.Pick(r, []string{"watch", "next", "stream.close", "write", "close", "read", "with_txn_ok"})
 			default:
@@ -206,22 +208,23 @@ func runC16(c *fw.Ctx) {
 }
 
 var c16StepPoints = map[string][]string{
-	"write":          {"begin.locked", "begin.unlocked", "begin.acquired", "begin.txn_set", "commit.locked", "commit.before_store", "commit.before_publish", "commit.before_broadcast", "token.release", "abort.locked"},
-	"write_deadline": {"begin.locked", "begin.unlocked", "begin.acquired", "begin.acquire_failed", "commit.locked", "token.release"},
-	"begin":          {"begin.locked", "begin.unlocked", "begin.acquired", "begin.acquire_failed", "begin.txn_set"},
-	"commit":         {"commit.locked", "commit.before_store", "commit.before_publish", "commit.before_broadcast", "token.release"},
-	"abort":          {"abort.locked", "token.release"},
-	"sess.start":     {"session.start.reserved", "begin.locked", "begin.unlocked", "begin.acquired", "begin.txn_set", "session.start.begun"},
-	"sess.commit":    {"session.commit.locked", "commit.locked", "commit.before_store", "commit.before_publish", "token.release"},
-	"sess.abort":     {"session.abort.locked", "abort.locked", "token.release"},
-	"sess.end":       {"session.end.locked", "abort.locked", "token.release"},
-	"sess.drop":      {"begin.locked", "begin.unlocked", "begin.acquired", "commit.locked"},
-	"sess.index":     {"begin.locked", "begin.unlocked", "begin.acquired", "commit.locked"},
-	"with_txn_ok":    {"session.start.reserved", "begin.unlocked", "begin.acquired", "session.start.begun", "session.commit.locked", "commit.before_store", "token.release", "session.abort.locked"},
-	"with_txn_err":   {"session.start.reserved", "begin.acquired", "session.abort.locked", "abort.locked", "token.release"},
-	"with_txn_panic": {"session.start.reserved", "begin.acquired", "session.abort.locked", "abort.locked", "token.release"},
-	"next":           {"stream.before_wait", "stream.woken"},
-	"close":          {"close.killed", "close.streams_closed", "close.done"},
+	"write":           {"begin.locked", "begin.unlocked", "begin.acquired", "begin.txn_set", "commit.locked", "commit.before_store", "commit.before_publish", "commit.before_broadcast", "token.release", "abort.locked"},
+	"write_deadline":  {"begin.locked", "begin.unlocked", "begin.acquired", "begin.acquire_failed", "commit.locked", "token.release"},
+	"begin":           {"begin.locked", "begin.unlocked", "begin.acquired", "begin.acquire_failed", "begin.txn_set"},
+	"commit":          {"commit.locked", "commit.before_store", "commit.before_publish", "commit.before_broadcast", "token.release"},
+	"abort":           {"abort.locked", "token.release"},
+	"sess.start":      {"session.start.reserved", "begin.locked", "begin.unlocked", "begin.acquired", "begin.txn_set", "session.start.begun"},
+	"sess.commit":     {"session.commit.locked", "commit.locked", "commit.before_store", "commit.before_publish", "token.release"},
+	"sess.abort":      {"session.abort.locked", "abort.locked", "token.release"},
+	"sess.end":        {"session.end.locked", "abort.locked", "token.release"},
+	"sess.drop":       {"begin.locked", "begin.unlocked", "begin.acquired", "commit.locked"},
+	"sess.index":      {"begin.locked", "begin.unlocked", "begin.acquired", "commit.locked"},
+	"with_txn_ok":     {"session.start.reserved", "begin.unlocked", "begin.acquired", "session.start.begun", "session.commit.locked", "commit.before_store", "token.release", "session.abort.locked"},
+	"with_txn_err":    {"session.start.reserved", "begin.acquired", "session.abort.locked", "abort.locked", "token.release"},
+	"write_panicking": {"begin.locked", "begin.unlocked", "begin.acquired", "abort.locked", "token.release"},
+	"with_txn_panic":  {"session.start.reserved", "begin.acquired", "session.abort.locked", "abort.locked", "token.release"},
+	"next":            {"stream.before_wait", "stream.woken"},
+	"close":           {"close.killed", "close.streams_closed", "close.done"},
 }
 
 // c16Points lists the hook points a script can reach.
@@ -549,6 +552,22 @@ func c16Step(c *fw.Ctx, a *c16Actor, st string, client lungo.IClient, engine *lu
 		_, err := coll.InsertOne(wctx, bson.D{{Key: "a", Value: int32(a.id)}})
 		cancel()
 		note("err=%v", err)
+	case "write_panicking":
+		// the callback of the auto-transaction panics (a value of a BSON type
+		// the engine does not support reaches Transaction.Insert/Update):
+		// the panic propagates to the caller, the slot must be free afterwards
+		expectPanic = true
+		c.Count("panics_injected", 1)
+		c.Count("panicking_write_callbacks", 1)
+		wctx, cancel := context.WithTimeout(ctx, 300*time.Millisecond)
+		defer cancel()
+		if a.id%2 == 0 {
+			_, err := coll.InsertOne(wctx, bson.D{{Key: "js", Value: primitive.JavaScript("x")}})
+			note("err=%v", err)
+		} else {
+			_, err := coll.UpdateOne(wctx, bson.D{}, bson.D{{Key: "$max", Value: bson.D{{Key: "sym", Value: primitive.Symbol("s")}}}}, options.Update().SetUpsert(true))
+			note("err=%v", err)
+		}
 	case "write_cancelled":
 		c.Count("cancelled_contexts", 1)
 		cctx, cancel := context.WithCancel(ctx)
